@@ -164,7 +164,13 @@ class Server(object):
             self.clients.discard(sock)
             sock.close()
             return
-        self._accept_method(sock)
+        try:
+            self._accept_method(sock)
+        except (RuntimeError, OSError):
+            # no thread / process could be started for this client (resource limit): give this client up, keep serving the others
+            self.logger.exception("could not start serving %s", addrinfo)
+            self.clients.discard(sock)
+            sock.close()
 
     def _accept_method(self, sock):
         """this method should start a thread, fork a child process, or
